@@ -82,3 +82,49 @@ func firstLine(s string) string {
 	}
 	return s
 }
+
+func init() {
+	All = append(All, W{ID: "D27", Property: "C20", What: "plenctag skips a whole multi-name field when its first name is unexported: in 'a, B int `json:\"-\"`' with -json the exported B is left without any plenc tag, which plenc then rejects", Run: func() error {
+		src := "package x\n\ntype T struct {\n\ta, B int `json:\"-\"`\n\tC    int\n}\n"
+		out, stderr, code, err := runPlenctag(src, "-json=true")
+		if err != nil {
+			return err
+		}
+		if code != 0 {
+			return fmt.Errorf("exit %d: %s", code, firstLine(stderr))
+		}
+		for _, line := range strings.Split(out, "\n") {
+			f := strings.Fields(line)
+			if len(f) >= 2 && f[0] == "B" && !strings.Contains(line, `plenc:"-"`) {
+				return fmt.Errorf("exported field B has no plenc tag:\n%s", out)
+			}
+			if len(f) >= 2 && (f[0] == "a" || f[0] == "a,") && strings.Contains(line, "plenc:") {
+				return fmt.Errorf("unexported field a was given a plenc tag:\n%s", out)
+			}
+			if len(f) >= 2 && f[0] == "a," && !strings.Contains(line, "plenc:") {
+				return fmt.Errorf("a and B still share one untagged declaration:\n%s", out)
+			}
+		}
+		return nil
+	}})
+}
+
+func init() {
+	All = append(All, W{ID: "D28", Property: "C20", What: "plenctag re-serialises the whole tag through structtag, which rewrites json:\"-,\" (a field NAMED \"-\") to json:\"-\" (a field that is skipped): another key's value changes", Run: func() error {
+		src := "package x\n\ntype T struct {\n\tA int `json:\"-,\"`\n\tB int `json:\"b,\"   xml:\"b\"`\n}\n"
+		out, stderr, code, err := runPlenctag(src)
+		if err != nil {
+			return err
+		}
+		if code != 0 {
+			return fmt.Errorf("exit %d: %s", code, firstLine(stderr))
+		}
+		if !strings.Contains(out, "`json:\"-,\" plenc:\"1\"`") {
+			return fmt.Errorf("the json tag of A was not kept as it was:\n%s", out)
+		}
+		if !strings.Contains(out, "json:\"b,\"") || !strings.Contains(out, "xml:\"b\"") {
+			return fmt.Errorf("the tags of B were not kept as they were:\n%s", out)
+		}
+		return nil
+	}})
+}
